@@ -207,6 +207,7 @@ SMALL = [  # (roles, cap, io, bound quick, bound thorough)
     (["L", "E", "W1"], 2, 0, 2, 4), (["E", "L", "W1"], 2, 0, 2, 4), (["W1", "L", "E"], 2, 0, 2, 4),
     (["L", "Hg"], 2, 0, 3, 5), (["L", "Hg", "E"], 2, 0, 2, 3), (["L", "Hgg"], 1, 0, 3, 4), (["L", "Hb", "E"], 2, 0, 2, 3),
     (["E", "L", "Hg"], 2, 0, 2, 3), (["X1", "W1"], 2, 0, 3, 5), (["X2", "W2", "E"], 2, 0, 1, 2),
+    (["L", "W2", "E"], 2, 0, 2, 3), (["W2", "L", "E"], 2, 0, 2, 3),
     (["L", "E", "I1"], 2, 1, 2, 3), (["E", "L", "I1"], 2, 1, 2, 3), (["L", "W1", "I1"], 2, 1, 2, 3),
 ]
 
@@ -302,6 +303,10 @@ def judge(run, out):
         nxt = next((l for l in ev[i + 1:] if l in (lp + "note cb_wake", lp + "note run-returned")), None)
         if nxt == lp + "note cb_wake":
             wake_entries.append(i)
+    # (a run that returned: wake-ups that race with an exit request are not judged. The code under test
+    # itself drops a wake-up that arrives between the entry of the wake callback and the check of the exit
+    # flag in the same wake handling pass when an exit request arrives in that window too — the loop is
+    # leaving; DESIGN.md §8.8 records this reading of "a running event loop".)
     if not returned:
         for i, l in enumerate(ev):
             m = re.match(r"T(\d+) futex-wake evfd ", l)
